@@ -40,6 +40,14 @@ Proof.
   f_equal. apply IH. lia.
 Qed.
 
+Lemma NoDup_app_snoc {A} (l : list A) x : NoDup l -> ~ In x l -> NoDup (l ++ [x]).
+Proof.
+  induction l as [|a l IH]; intros Hn Hx; simpl; [repeat constructor; intros []|].
+  inversion Hn; subst. constructor.
+  - intros Hin. apply in_app_or in Hin. destruct Hin as [Hin|[->|[]]]; [contradiction|]. apply Hx. left. reflexivity.
+  - apply IH; auto. intros H. apply Hx. right. exact H.
+Qed.
+
 Lemma flat_map_ext_Forall {A B} (f g : A -> list B) l :
   Forall (fun x => f x = g x) l -> flat_map f l = flat_map g l.
 Proof. induction 1; simpl; congruence. Qed.
@@ -799,6 +807,125 @@ Section Generic.
 
   Lemma distinct_step (st : bp) : True.
   Proof. exact I. Qed.
+
+
+
+  (* ---- one shard per tuple: the groups are pairwise distinct ---------------------------------------------- *)
+  Lemma map_md_upd_nth f i (st : bp) : Forall (fun s => s_md (f s) = s_md s) st ->
+    map (@s_md R) (upd_nth i f st) = map (@s_md R) st.
+  Proof.
+    revert i. induction st as [|x st IH]; intros [|i] H; simpl; auto; inversion H; subst; simpl.
+    - rewrite H2. reflexivity.
+    - rewrite IH; auto.
+  Qed.
+
+  Lemma find_none_notin vals (st : bp) : find_shard (aset_of vals) st = None -> ~ In vals (map (@s_md R) st).
+  Proof.
+    intros Hf Hin. apply find_shard_none in Hf. rewrite Forall_forall in Hf. apply in_map_iff in Hin.
+    destruct Hin as (s & E & Hs). specialize (Hf s Hs). rewrite E in Hf.
+    assert (aset_eqb (aset_of vals) (aset_of vals) = true) by (apply aset_of_eqb; reflexivity). congruence.
+  Qed.
+
+  Lemma locked_md now vals p (st : bp) :
+    map (@s_md R) (fst (bp_consume_locked c now vals p st)) = map (@s_md R) st
+    \/ (map (@s_md R) (fst (bp_consume_locked c now vals p st)) = map (@s_md R) st ++ [vals]
+        /\ ~ In vals (map (@s_md R) st)).
+  Proof.
+    unfold bp_consume_locked.
+    destruct (negb (Nat.eqb (c_limit c) 0) && Nat.leb (c_limit c) (length st)); simpl; auto.
+    destruct (find_shard (aset_of vals) st) eqn:Ef; simpl.
+    - left. apply map_md_upd_nth. apply Forall_forall. intros; reflexivity.
+    - right. split; [rewrite map_app; reflexivity|apply find_none_notin; exact Ef].
+  Qed.
+
+  Lemma step_md (x : bp * list N) l : Forall Good (fst x) ->
+    map (@s_md R) (fst (bp_step count split c x l)) = map (@s_md R) (fst x)
+    \/ exists vals, map (@s_md R) (fst (bp_step count split c x l)) = map (@s_md R) (fst x) ++ [vals]
+                    /\ ~ In vals (map (@s_md R) (fst x)).
+  Proof.
+    intros HG.
+    assert (Hq : forall f i, quiet f -> map (@s_md R) (upd_nth i f (fst x)) = map (@s_md R) (fst x)).
+    { intros f i Q. apply map_md_upd_nth. eapply Forall_impl; [|exact HG]. intros s Hs. apply (Q s Hs). }
+    assert (He : forall i p, map (@s_md R) (upd_nth i (fun s => sh_enqueue s p) (fst x)) = map (@s_md R) (fst x)).
+    { intros i p. apply map_md_upd_nth. apply Forall_forall. intros; reflexivity. }
+    destruct l as [now md p|now md p|now i|now i|now i]; simpl.
+    - destruct (bp_consume c now md p (fst x)) as [st' e] eqn:E. simpl.
+      change st' with (fst (st', e)). rewrite <- E. unfold bp_consume.
+      destruct (mks c); cbn [fst]; [left; apply He|].
+      destruct (find_shard (aset_of (md_values c md)) (fst x)); cbn [fst]; [left; apply He|].
+      destruct (locked_md now (md_values c md) p (fst x)) as [H|H]; [left; exact H|right; eexists; exact H].
+    - destruct (bp_consume_stale c now md p (fst x)) as [st' e] eqn:E. simpl.
+      change st' with (fst (st', e)). rewrite <- E. unfold bp_consume_stale.
+      destruct (mks c); cbn [fst]; [left; apply He|].
+      destruct (locked_md now (md_values c md) p (fst x)) as [H|H]; [left; exact H|right; eexists; exact H].
+    - left. apply Hq, quiet_recv.
+    - left. apply Hq, quiet_timer.
+    - left. apply Hq, quiet_seen.
+  Qed.
+
+  Lemma groups_distinct_g t0 ls : NoDup (map (@s_md R) (fst (bp_run count split c t0 ls))).
+  Proof.
+    induction ls as [|l ls IH] using rev_ind.
+    - unfold bp_run, bp_init. simpl. destruct (mks c); simpl; repeat constructor. intros [].
+    - destruct (run_inv t0 ls) as (HG & _). unfold bp_run in *. rewrite fold_left_app. simpl.
+      destruct (step_md _ l HG) as [H|(vals & H & Hn)]; rewrite H; [exact IH|].
+      apply NoDup_app_snoc; auto.
+  Qed.
+
+  Lemma find_own (st : bp) : NoDup (map (@s_md R) st) -> forall i s, nth_error st i = Some s ->
+    find_shard (aset_of (s_md s)) st = Some i.
+  Proof.
+    induction st as [|x st IH]; intros Hn [|i] s Hs; simpl in *; try discriminate.
+    - inversion Hs; subst. assert (E : aset_eqb (aset_of (s_md s)) (aset_of (s_md s)) = true) by (apply aset_of_eqb; reflexivity).
+      rewrite E. reflexivity.
+    - inversion Hn; subst. destruct (aset_eqb (aset_of (s_md x)) (aset_of (s_md s))) eqn:E.
+      + apply aset_of_eqb in E. exfalso. apply H1. rewrite E. apply in_map. eapply nth_error_In; eauto.
+      + rewrite (IH H2 i s Hs). reflexivity.
+  Qed.
+
+  (* ---- shutdown with producers still calling: what is not emitted sits in channels of returned shards ---- *)
+  Definition Flushed (s : shard) : Prop := s_done s = true -> b_n (s_batch s) = 0.
+  Definition left_tagged (st : bp) := flat_map (fun s => tag s (outs s ++ chan_items s)) st.
+
+  Lemma pres_flushed l : max_valid -> step_pres (fun s => Good s /\ Flushed s) l.
+  Proof.
+    intros Hv. destruct l as [now md p|now md p|now i|now i|now i]; simpl.
+    - split; [intros vals; split; [apply enqueue_good, new_shard_good|intros H; discriminate]|].
+      intros s [A B]. split; [apply enqueue_good; exact A|exact B].
+    - split; [intros vals; split; [apply enqueue_good, new_shard_good|intros H; discriminate]|].
+      intros s [A B]. split; [apply enqueue_good; exact A|exact B].
+    - intros s [A B]. destruct (recv_spec now A) as (G & _ & _ & D & F). split; [exact G|].
+      destruct (s_done s) eqn:Ed; [rewrite (F eq_refl); exact B|]. intros H. congruence.
+    - intros s [A B]. destruct (timer_spec now A) as (G & _ & _ & D & F). split; [exact G|].
+      destruct (s_done s) eqn:Ed; [rewrite (F eq_refl); exact B|]. intros H. congruence.
+    - intros s [A B]. destruct (seen_spec now A) as (G & _ & _ & F & F'). split; [exact G|].
+      destruct (s_done s) eqn:Ed; [rewrite (F eq_refl); exact B|].
+      destruct (F' eq_refl) as (D1 & D2 & D3). intros _. exact (D3 Hv).
+  Qed.
+
+  Lemma accounting_g t0 ls : max_valid ->
+    let x := bp_run count split c t0 ls in
+    Forall (fun s => s_done s = true) (fst x) ->
+    Permutation (left_tagged (fst x)) (accepted_tagged ls (snd x)).
+  Proof.
+    intros Hv x Hd.
+    assert (HC : Forall (fun s => Good s /\ Flushed s) (fst x)).
+    { unfold x, bp_run. apply steps_forall.
+      - apply Forall_forall. intros l _. apply pres_flushed; exact Hv.
+      - eapply Forall_impl; [|apply init_live]. intros s [A B]. split; [exact A|]. intros H. congruence. }
+    destruct (run_inv t0 ls) as (HG & _ & _ & HP & _). fold x in HG, HP.
+    rewrite <- HP. unfold left_tagged, all_tagged.
+    assert (E : Forall (fun s => tag s (outs s ++ chan_items s) = tag s (taken s)) (fst x)).
+    { rewrite Forall_forall in *. intros s Hs. destruct (HC s Hs) as ([[Hn Hf _] _] & Hcl).
+      f_equal. unfold taken. rewrite <- Hf. unfold pend.
+      rewrite (@count0_items (b_data (s_batch s))), app_nil_r by (rewrite <- Hn; exact (Hcl (Hd s Hs))). reflexivity. }
+    rewrite (flat_map_ext_Forall _ _ E). reflexivity.
+  Qed.
+
+  (* a returned shard never emits again and never takes from its channel again *)
+  Lemma done_frozen_g now (s : shard) : s_done s = true ->
+    sh_recv count split c now s = s /\ sh_timer split c now s = s /\ sh_seen count split c now s = s.
+  Proof. intros Hd. unfold sh_recv, sh_timer, sh_seen. rewrite Hd. auto. Qed.
 
   (* ============================================================================================ *)
   (* timely flush (logical time)                                                                  *)
